@@ -23,6 +23,7 @@ QUICK = [
     "no-unsafe,inline-deferrer,inter-thread",         # inline safe deferrer
     "multi-thread,no-unsafe-queue",                   # thread-local unsafe deferrer + boxed queue
     "multi-stakker,logger",                           # several Stakkers per thread with the Deferrer that cfg selects for it
+    "multi-stakker,logger,no-unsafe",                 # the same on the safe variants (std rc with logger, safe cells / deferrer)
 ]
 
 
@@ -147,6 +148,21 @@ def run(tier, seed, replay=None):
         default_like = not any(f in combo for f in ("inline-deferrer", "multi-stakker", "multi-thread", "no-unsafe"))
         rl = run_list if default_like else [dict(c, noflushcheck=True) for c in run_list]
         cpath, tpath, verdict = seqcheck.run_cases(binary, rl, tag)
+        # what multi-stakker changes is only how many Stakkers may coexist: a second one per thread is
+        # refused exactly in the builds without it
+        want_refused = "multi-stakker" not in combo
+        wrong = None
+        with open(tpath) as f:
+            for ln in f:
+                if ln.startswith('{"e":"dupstakker"') and (('"refused":true' in ln) != want_refused):
+                    wrong = ln.strip()
+                    break
+        if wrong:
+            path = os.path.join(common.REPLAYS, "C18-s%d-%d.json" % (seed, len(viols)))
+            common.ensure_dirs()
+            json.dump({"property": prop, "why": "second Stakker per thread: " + wrong, "features": combo, "ref": combos[0], "case": {}}, open(path, "w"))
+            viols.append({"why": "[%s] a second Stakker on the thread was %s, contrary to what the multi-stakker feature says" % (
+                combo, "refused" if not want_refused else "allowed"), "replay": path, "sig": combo})
         lines = per_case_canon(tpath)
         nev += sum(len(v) for v in lines.values())
         bad = [v for v in verdict["violations"] if v["prop"] == "HARNESS"]
@@ -211,5 +227,5 @@ def run(tier, seed, replay=None):
         "explanation": "each build's trace was validated against SeqAbs by TLC, compared event-for-event with the reference build and with the design specs' predictions",
     }
     return {"level": "model_checking", "coverage": coverage, "violations": viols, "assumptions": seqcheck.ASSUME + [
-        "quick tier: 7 builds that between them compile every cfg-selected alternative module; thorough tier: all 18 supported combinations"],
+        "quick tier: 8 builds that between them compile every cfg-selected alternative module; thorough tier: all 18 supported combinations"],
         "summary": "%d builds x %d cases, %d events, %d drift" % (len(combos), len(cases), nev, drift_total)}
